@@ -125,10 +125,15 @@ def gen(rng, tier):
                 grid = i % 2 == 0
                 den = rng.choice([8, 64])
                 ws = [G.grid_opinion(rng, n, den) if grid else G.float_opinion(rng, ty, n, positive=False) for n in dims]
+                tag = ("grid" if grid else "float") + "_product"
+                if not grid and i % 6 == 1:
+                    # all factors dogmatic with arbitrary float beliefs: the bound (P - b0 b1 ..)/a is an exact zero only
+                    # if the joint projection and the product of the beliefs are rounded alike
+                    ws = [G.float_opinion(rng, ty, n, u=0.0, positive=rng.chance(1, 2)) for n in dims]
+                    tag = "dogmatic_float_product"
                 nums = sum((flat_op(w) for w in ws), [])
                 op = "prod2" if len(dims) == 2 else "prod3"
-                out.append(Case(op, ty, "arr", rng.choice(["own", "ref"]), dims, nums, mdims=dims + [0],
-                                tag=("grid" if grid else "float") + "_product"))
+                out.append(Case(op, ty, "arr", rng.choice(["own", "ref"]), dims, nums, mdims=dims + [0], tag=tag))
     return out
 
 
@@ -156,8 +161,20 @@ def predicates(c, ri, rm):
         return []
     exact = "the exact result is well-formed" if rm[0] == "OK" else "the model also fails"
     grid = c.tag.startswith("grid")
+    if c.tag.endswith("dogmatic_float_product") and rm[0] != "OK":
+        # float factors are well-formed only up to the constructors' tolerance (sum of masses up to 4 ulps above 1);
+        # for dogmatic factors the exact product then has u = -(b/a)(delta_0 + delta_1 ..) < 0, amplified by 1/a beyond
+        # the tolerance: the mathematically exact result is itself ill-formed, the failure is legitimate
+        return []
     return ["%s failed on %s operands inside its domain although %s: %s" % (
         c.op, "exactly representable (dyadic)" if grid else "well-formed", exact, classify(c, ri))]
+
+
+def compare(c, ri, rm):
+    if c.tag.endswith("dogmatic_float_product") and rm[0] == "NONE":
+        return None     # exact result marginally ill-formed (see predicates): rounding decides whether it is accepted
+    from .. import core
+    return core.compare(c, ri, rm, scale=scale(c, rm), none_kinds=NONE_KINDS)
 
 
 def scale(c, rm):
